@@ -31,6 +31,10 @@ struct cont_task {
   coro::coroutine_handle<promise_type> h;
 };
 // the awaiting coroutine: on resumption it destroys the thunk (as _awaiter::await_resume / ~_awaiter do with the thunk's frame)
+// The thunk's storage is released at the moment the real awaiting coroutine would destroy the thunk's frame.  With vf_param(1)
+// the member destructors run first (full destruction); without it only the storage is released, which is what the
+// "nobody touches the thunk afterwards" assertions need (the engine reports any later access as use after free).
+static void release_thunk() noexcept { if (vf_param(1)) delete P; else ::operator delete(P); P = nullptr; }
 static cont_task cont(int which) {
   ++resumed[which];
 #if !UNIFEX_NO_ASYNC_STACKS
@@ -40,7 +44,7 @@ static cont_task cont(int which) {
   if (!r || r->getTopFrame() != &g_frame || g_frame.getStackRoot() != r) frame_bad = 1;
   else { popAsyncStackFrameCallee(g_frame); deactivateAsyncStackFrame(g_parent); }
 #endif
-  delete P; P = nullptr; co_return;
+  release_thunk(); co_return;
 }
 static cont_task c_norm, c_done;
 static void check_root() {
@@ -75,5 +79,5 @@ extern "C" void h_final() {
   VF_ASSERT(resumed[vf_param(0) ? 1 : 0] == 1, "the wrong continuation (normal vs done) was resumed");
   VF_ASSERT(!frame_bad, "the task's async stack frame was not active on the resuming thread's root when its continuation was resumed");
   VF_ASSERT(!root_bad, "a thread's async stack root was not restored (unbalanced async-stack bookkeeping)");
-  c_norm.h.destroy(); c_done.h.destroy(); delete src; vf_check_leaks();
+  c_norm.h.destroy(); c_done.h.destroy(); delete src; if (vf_param(1)) vf_check_leaks();
 }
